@@ -249,6 +249,7 @@ SRC_MODULES = {
     "Anonymongo.Src.RemoveElementsBeforeIncluding_eq": "Basic",
     "Anonymongo.Src.isFieldNameValue_eq": "Helpers", "Anonymongo.Src.isRedactableFieldPatternInArray_eq": "Helpers",
     "Anonymongo.Src.isInSearchStage_eq": "Helpers", "Anonymongo.Src.augmentOp_eq": "Helpers",
+    "Anonymongo.Src.HashName_eq": "Hash", "Anonymongo.Src.trimLeftCutset_dollar": "Hash",
     "Anonymongo.Src.redactQueryValues_eq": "Walk", "Anonymongo.Src.redactArrayValuesWithKey_eq": "Walk", "Anonymongo.Src.redactArrayValues_eq": "Walk",
     "Anonymongo.Src.redactQueryValues_eq_gen": "Walk", "Anonymongo.Src.QA_all": "Walk", "Anonymongo.Src.Q_step": "Walk", "Anonymongo.Src.A_step": "Walk",
 }
@@ -266,9 +267,10 @@ SRC_THEOREMS = {
     "C05": _LEAF + _WALK,
     "C07": _LEAF + _PATH + _HELP + _WALK,
     "C10": ["Anonymongo.Src.redactString_eq", "Anonymongo.Src.redactScalarValue_eq"] + _WALK,
-    "C12": ["Anonymongo.Src.getOp_eq", "Anonymongo.Src.traverseMapPath_eq"],
+    "C12": ["Anonymongo.Src.getOp_eq", "Anonymongo.Src.traverseMapPath_eq", "Anonymongo.Src.HashName_eq"],
+    "C13": ["Anonymongo.Src.HashName_eq", "Anonymongo.Src.trimLeftCutset_dollar"],
     "C14": _LEAF + ["Anonymongo.Src.isRedactableFieldPatternInArray_eq", "Anonymongo.Src.augmentOp_eq"] + _WALK,
-    "C15": ["Anonymongo.Src.isFieldNameValue_eq"] + _WALK,
+    "C15": ["Anonymongo.Src.isFieldNameValue_eq", "Anonymongo.Src.HashName_eq"] + _WALK,
     "C19": ["Anonymongo.Src.redactScalarValue_eq"] + _WALK,
 }
 SRC_NOTE = ("; SOURCE-LEVEL (tools/gotr, Generated/Src.lean, Props/Src/*): the leaf and lookup functions are TRANSLATED from the Go source on every run "
@@ -276,7 +278,8 @@ SRC_NOTE = ("; SOURCE-LEVEL (tools/gotr, Generated/Src.lean, Props/Src/*): the l
             "redactScalar / redactString / reMatchesAny / isEmail / getOp / traverse / augmentOp / selArr compute, for every key path (non-empty), value, "
             "table and flag setting; the theorems above about those model functions are therefore theorems about the current source text; "
             "the QUERY WALKER and the ARRAY WALKER too (Props/Src/Walk: redactQueryValues_eq, redactArrayValuesWithKey_eq - the translated mutual recursion "
-            "of redactQueryValues / redactArrayValuesWithKey returns the model's Q / A for every document, at every nesting depth, given fuel beyond "
+            "of redactQueryValues / redactArrayValuesWithKey returns the model's Q / A; HashName_eq: the translated HashName is the model's hashName (SHA-256, Split / Join and %x being the model's); "
+            "redactQueryValues / redactArrayValuesWithKey: as said for every document, at every nesting depth, given fuel beyond "
             "key-path length + twice the depth); the stage walker redactPipelineStage remains hand-modelled and corresponded")
 for _p, _ts in SRC_THEOREMS.items():
     _s = PROPS[_p]
